@@ -42,6 +42,12 @@ def scenarios(ctx):
                 if quick and bname == "gzip" and base == "net":
                     continue
                 add(f"{mname}-{bname}-{base}", p, QUICK_B if quick else (THOROUGH_SMALL if bname == "single" else THOROUGH_B))
+    # the same ordering / in-flight / sequence clauses for a transactional producer (one open transaction): partitions are
+    # additionally muted while their AddPartitionsToTxn is pending
+    for base in ("net", "app"):
+        p = dict(base_f, idempotent=True, transactional=True, batching="single", baseline=base, program=PROG_A, leader_move=True,
+                 fault_apis=["Produce", "Metadata"])
+        add(f"txn-single-{base}", p, [{"r": 1, "f": 1}] if quick else THOROUGH_B)
     # sequence counter start values, including ones that wrap inside the run
     for s0 in (2**31 - 3, 2**31 - 2, 2**31 - 1):
         for base in ("net", "app"):
